@@ -20,6 +20,9 @@ def sh(cmd, cwd=repo, timeout=1500):
 
 try:
     subprocess.run(["git", "-C", "/repo", "worktree", "add", "--detach", "-f", repo, "HEAD"], check=True, capture_output=True)
+    # demos that look for <repo>/target find the scratch target directory there
+    if not os.path.exists(repo + "/target"):
+        os.symlink(d + "/target", repo + "/target")
     rc, out = sh("git apply --whitespace=nowarn %s/patch.diff" % src)
     assert rc == 0, "patch does not apply: " + out
     rc, out = sh("cargo build --offline 2>&1 | tail -2")
